@@ -59,6 +59,25 @@ def r1_sites_guarded(ctx, sym):
         if not escaping:
             ctx.ok('R1', key, sample='guarded: no Exception/SystemExit atom leaves %s' % q)
             continue
+        if q == 'Sandbox._execute' and m.name == SANDBOX:
+            # the CFG is path-insensitive: a single `except BaseException as e:` that re-raises only what is neither an
+            # Exception nor a SystemExit looks like an escape. Decide by execution: every contained kind, raised at
+            # every raise point, must leave _execute normally (the scenarios of R2).
+            import builtins as _b1
+            from .c05 import execute_scenarios
+            escaped_kinds, n_sc = [], 0
+            for where, kind, ob in execute_scenarios(ctx, sym, m):
+                if kind is None:
+                    continue
+                cls = getattr(_b1, kind)
+                if issubclass(cls, Exception) or issubclass(cls, SystemExit):
+                    n_sc += 1
+                    if ob['raised'] is not None:
+                        escaped_kinds.append((where, ob['label'], ob['raised'].kind))
+            if n_sc >= 12 and not escaped_kinds:
+                ctx.ok('R1', key, sample='guarded (decided by abstract execution of %d raise point x exception kind '
+                                         'scenarios: the handler re-raises only other BaseExceptions)' % n_sc)
+                continue
         # (b) reachable only from student-visible builtins
         refs = []
         for m2 in ctx.repo.modules.values():
@@ -205,10 +224,7 @@ def r3_exactly_one_feedback(ctx, sym):
                              (True, '_instructor.call_1.py')):
         rec = symexec.Recorder()
         line_no = symexec.marker('traceback.line_number')
-        submission = Obj('submission', instructor_file='on_run.py', line_offsets={}, main_file='answer.py',
-                         files={'answer.py': 'x'})
-        symexec.method(submission, 'get_files_lines', lambda: {'answer.py': ['x']})
-        symexec.method(submission, 'get_lines', lambda: ['x'])
+        submission = symexec.model_submission(ctx, 'x', instructor_file='on_run.py', line_offsets={})
         report = Obj('report', submission=submission)
         me = symexec.self_obj(mod, 'Sandbox', report=report, full_traceback=False, exception=None, feedback=None)
         symexec.method(me, 'get_context', rec.stub('get_context', ret=Obj('context')))
